@@ -34,3 +34,13 @@ func matchersOK(ws *WebService) bool {
 	return ws != nil && ws.pathExpr != nil && ws.pathExpr.Matcher != nil && routesLockOf(ws) >= 0 &&
 		forall(0, len(ws.routes), func(k int) bool { return ws.routes[k].pathExpr != nil && ws.routes[k].pathExpr.Matcher != nil })
 }
+
+// processorFor: the path processor dispatch must use with router r — the
+// router itself when it implements PathProcessor, the default one otherwise (C04).
+func processorFor(r RouteSelector, p PathProcessor) bool {
+	if pp, ok := r.(PathProcessor); ok {
+		return same(p, pp)
+	}
+	_, isDefault := p.(defaultPathProcessor)
+	return isDefault
+}
